@@ -11,11 +11,14 @@ import (
 	"encoding/hex"
 	"errors"
 	"fmt"
+	"io"
 	"math"
+	"math/big"
 	"reflect"
 	"sort"
 	"strconv"
 	"strings"
+	"time"
 	"unicode/utf8"
 
 	"encoding/json"
@@ -150,6 +153,98 @@ func (invalidMarshaler) MarshalJSON() ([]byte, error) { return []byte(`{"x":`), 
 type badText struct{ X int }
 
 func (badText) MarshalText() ([]byte, error) { return nil, errors.New("cannot marshal text") }
+
+// ---- values encoding/json renders specially (kind "special")
+type fieldErr struct {
+	Code int
+	Msg  string
+}
+
+func (e fieldErr) Error() string { return e.Msg }
+
+type jsonErr struct{ msg string }
+
+func (e jsonErr) Error() string                { return e.msg }
+func (e jsonErr) MarshalJSON() ([]byte, error) { return []byte(`{ "e" : "x" }`), nil }
+
+type textErr struct{ msg string }
+
+func (e textErr) Error() string                { return e.msg }
+func (e textErr) MarshalText() ([]byte, error) { return []byte("text-err<"), nil }
+
+type ptrMarshaler struct{ X int }
+
+func (p *ptrMarshaler) MarshalJSON() ([]byte, error) { return []byte(`[1]`), nil }
+
+type strg struct{ A int }
+
+func (s strg) String() string { return "stringer-text" }
+
+func num(tok string) *MV { return &MV{K: "num", S: []byte(tok)} }
+func str(x string) *MV   { return &MV{K: "str", S: []byte(x)} }
+
+// SpecialKinds lists the values of kind "special": errors of every flavour, Stringer, time, Duration, RawMessage, big ints,
+// pointers to pointers, typed nils, floats at the extremes.  Their JSON images are written down here, not computed with
+// encoding/json.
+var SpecialKinds = []string{"err-new", "err-wrap", "err-eof", "err-fields", "err-fields-val", "err-marshaler", "err-text", "err-nil-typed",
+	"stringer", "time", "duration", "rawmsg", "rawmsg-nil", "ptrptr", "bigint", "bigint-neg", "marshaler-ptr-nil", "marshaler-ptr",
+	"maxfloat64", "minfloat64", "maxfloat32", "minfloat32"}
+
+func buildSpecial(kind string) (interface{}, *MV) {
+	empty := &MV{K: "obj", M: []Member{}}
+	switch kind {
+	case "err-new":
+		return errors.New("boom"), empty
+	case "err-wrap":
+		return fmt.Errorf("reading: %w", io.EOF), empty
+	case "err-eof":
+		return io.EOF, empty
+	case "err-fields":
+		return &fieldErr{Code: 7, Msg: "m<"}, &MV{K: "obj", M: []Member{{[]byte("Code"), num("7")}, {[]byte("Msg"), str("m<")}}}
+	case "err-fields-val":
+		return fieldErr{Code: -1, Msg: ""}, &MV{K: "obj", M: []Member{{[]byte("Code"), num("-1")}, {[]byte("Msg"), str("")}}}
+	case "err-marshaler":
+		return jsonErr{"hidden"}, &MV{K: "obj", M: []Member{{[]byte("e"), str("x")}}}
+	case "err-text":
+		return textErr{"hidden"}, str("text-err<")
+	case "err-nil-typed":
+		return (*fieldErr)(nil), &MV{K: "null"}
+	case "stringer":
+		return strg{A: 1}, &MV{K: "obj", M: []Member{{[]byte("A"), num("1")}}}
+	case "time":
+		t := time.Unix(1700000000, 5).UTC()
+		return t, str(t.Format(time.RFC3339Nano))
+	case "duration":
+		return 1500 * time.Millisecond, num("1500000000")
+	case "rawmsg":
+		return json.RawMessage("{\"a\": [1, 2 ],\n \"s\": \"<\"}"), &MV{K: "obj", M: []Member{{[]byte("a"), &MV{K: "arr", A: []*MV{num("1"), num("2")}}}, {[]byte("s"), str("<")}}}
+	case "rawmsg-nil":
+		return json.RawMessage(nil), &MV{K: "null"}
+	case "ptrptr":
+		i := 5
+		p := &i
+		return &p, num("5")
+	case "bigint":
+		b, _ := new(big.Int).SetString("123456789012345678901234567890", 10)
+		return b, num("123456789012345678901234567890")
+	case "bigint-neg":
+		b, _ := new(big.Int).SetString("-340282366920938463463374607431768211456", 10)
+		return b, num("-340282366920938463463374607431768211456")
+	case "marshaler-ptr-nil":
+		return (*ptrMarshaler)(nil), &MV{K: "null"}
+	case "marshaler-ptr":
+		return &ptrMarshaler{1}, &MV{K: "arr", A: []*MV{num("1")}}
+	case "maxfloat64":
+		return math.MaxFloat64, num("1.7976931348623157e+308")
+	case "minfloat64":
+		return math.SmallestNonzeroFloat64, num("5e-324")
+	case "maxfloat32":
+		return float32(math.MaxFloat32), num("3.4028235e+38")
+	case "minfloat32":
+		return float32(math.SmallestNonzeroFloat32), num("1e-45")
+	}
+	panic("bad special kind " + kind)
+}
 
 func unhex(s string) []byte {
 	b, err := hex.DecodeString(s)
@@ -421,6 +516,9 @@ func Build(r *Recipe) (gv interface{}, mv *MV, ok bool) {
 			return sv.Addr().Interface(), mv, ok
 		}
 		return sv.Interface(), mv, ok
+	case "special":
+		g, m := buildSpecial(r.V)
+		return g, m, true
 	case "unenc":
 		switch r.V {
 		case "nan":
@@ -657,6 +755,12 @@ func (g *Gen) Value(depth int, unencPermille int) *Recipe {
 		k := unencKinds[g.R.Intn(len(unencKinds))]
 		g.count("unenc:" + k)
 		return &Recipe{K: "unenc", V: k}
+	}
+	if g.R.Chance(1, 12) {
+		k := SpecialKinds[g.R.Intn(len(SpecialKinds))]
+		g.count("leaf:special")
+		g.count("special:" + k)
+		return &Recipe{K: "special", V: k}
 	}
 	x := g.R.Intn(100)
 	if depth <= 0 && x >= 62 {
@@ -895,4 +999,86 @@ func snap(sb *strings.Builder, v reflect.Value, seen map[uintptr]bool, depth int
 		}
 		sb.WriteString("}")
 	}
+}
+
+// ErrorsIn lists, with their paths, the values implementing error reachable through maps, slices, arrays, pointers,
+// interfaces and struct fields: after Process the same paths must hold the very same values.
+type ErrAt struct {
+	Path string
+	V    interface{}
+}
+
+var errorType = reflect.TypeOf((*error)(nil)).Elem()
+
+func ErrorsIn(v interface{}) []ErrAt {
+	var out []ErrAt
+	errorsIn(reflect.ValueOf(v), "$", map[uintptr]bool{}, &out, 0)
+	sort.SliceStable(out, func(i, j int) bool { return out[i].Path < out[j].Path })
+	return out
+}
+func errorsIn(v reflect.Value, path string, seen map[uintptr]bool, out *[]ErrAt, depth int) {
+	if !v.IsValid() || depth > 30 {
+		return
+	}
+	if v.Type().Implements(errorType) && v.CanInterface() && !(v.Kind() == reflect.Interface && v.IsNil()) {
+		*out = append(*out, ErrAt{path, v.Interface()})
+	}
+	switch v.Kind() {
+	case reflect.Interface:
+		if !v.IsNil() {
+			errorsIn(v.Elem(), path, seen, out, depth+1)
+		}
+	case reflect.Pointer:
+		if !v.IsNil() && !seen[v.Pointer()] {
+			seen[v.Pointer()] = true
+			errorsIn(v.Elem(), path+"*", seen, out, depth+1)
+		}
+	case reflect.Slice, reflect.Array:
+		for i := 0; i < v.Len(); i++ {
+			errorsIn(v.Index(i), fmt.Sprintf("%s[%d]", path, i), seen, out, depth+1)
+		}
+	case reflect.Map:
+		if v.IsNil() || seen[v.Pointer()] {
+			return
+		}
+		seen[v.Pointer()] = true
+		it := v.MapRange()
+		for it.Next() {
+			errorsIn(it.Value(), fmt.Sprintf("%s[%q]", path, fmt.Sprint(it.Key().Interface())), seen, out, depth+1)
+		}
+	case reflect.Struct:
+		for i := 0; i < v.NumField(); i++ {
+			if v.Type().Field(i).IsExported() {
+				errorsIn(v.Field(i), path+"."+v.Type().Field(i).Name, seen, out, depth+1)
+			}
+		}
+	}
+}
+
+// SameErrors: the same paths hold identical error values (same dynamic type; the same pointer for pointer errors, equal
+// values otherwise) and each is still itself for errors.Is.
+func SameErrors(before, after []ErrAt) bool {
+	if len(before) != len(after) {
+		return false
+	}
+	for i := range before {
+		a, b := before[i], after[i]
+		if a.Path != b.Path || reflect.TypeOf(a.V) != reflect.TypeOf(b.V) {
+			return false
+		}
+		ra, rb := reflect.ValueOf(a.V), reflect.ValueOf(b.V)
+		if ra.Kind() == reflect.Pointer {
+			if ra.Pointer() != rb.Pointer() {
+				return false
+			}
+		} else if !reflect.DeepEqual(a.V, b.V) {
+			return false
+		}
+		if ea, ok := a.V.(error); ok && ra.Kind() == reflect.Pointer && !ra.IsNil() {
+			if eb, ok2 := b.V.(error); !ok2 || !errors.Is(eb, ea) {
+				return false
+			}
+		}
+	}
+	return true
 }
